@@ -124,7 +124,7 @@ package kv
 //@   loop 2 invariant[only_referenced_files_are_filtered_out] forall(i, 0, len(sourceFiles), has(targetFiles, sourceFiles[i]) || exists(j, 0, rangeindex + 1, files[j] == sourceFiles[i]))
 //@   loop 3 invariant[only_files_that_are_not_yet_referenced_are_rolled_up] forall(j, 0, len(inputFiles), inputFiles[j] != nil && has(targetFiles, inputFiles[j].fileNumber))
 //@   loop 3 invariant[one_reference_record_per_input] len(logs) == len(inputFiles)
-//@   loop 3 invariant[every_file_that_is_not_yet_referenced_is_rolled_up] all(k, "table.FileNumber", visited(targetFiles, k) ==> exists(j, 0, len(inputFiles), inputFiles[j] != nil && inputFiles[j].fileNumber == k))
+//@   loop 3 invariant[every_file_that_is_not_yet_referenced_is_rolled_up] all(k, "table.FileNumber", visited(targetFiles, k) ==> hint(inputFiles[len(inputFiles) - 1], exists(j, 0, len(inputFiles), inputFiles[j] != nil && inputFiles[j].fileNumber == k)))
 //@ end
 
 //@ # the rollup mapping itself: a source slot's timestamp, and the target slot that contains a timestamp
